@@ -181,6 +181,9 @@ func (w *worker) runAsyncHistory(c Case, src string, h []Step, batch bool) (n in
 // asyncCase runs all settlement orders of one body, in both drain modes and all function kinds.
 func (w *worker) asyncCase(c Case, idx int64) {
 	r := w.r
+	if stopEarly(r) {
+		return
+	}
 	ids := deferredIDs(c.Prog)
 	hists := asyncHistories(ids)
 	kinds := []int{c.Prog.Kind}
